@@ -83,6 +83,19 @@ def _impl(tier, seed, search):
                 either_arc('trinterp:constant-rate', Ts[:3, :3], R0, ax, th, s, inp, what='rotation is not about the fixed axis of R0ᵀR1 through an angle proportional to s')
                 if s == 0.0: L.close('trinterp:s=0', Ts, T0, TOL, tsc, inp)
                 if s == 1.0: L.close('trinterp:s=1', Ts, T1, TOL, tsc, inp)
+        # the same end array used for a second interpolation from another start, and after being edited in place: each call
+        # depends on its own arguments only
+        if i % 4 == 0:
+            R0b = inputs.so3(g); T0b = np.eye(4); T0b[:3, :3] = R0b; T0b[:3, 3] = t0[::-1]; Tend = T1.copy()
+            def seq_():
+                a_ = b.trinterp(T0, Tend, s); b_ = b.trinterp(T0b, Tend, s); Xe = SE3(Tend, check=False); c_ = Xe.interp(s, start=SE3(T0, check=False)).A; d_ = Xe.interp(s, start=SE3(T0b, check=False)).A
+                Tend[:3, :3] = R0b; e_ = b.trinterp(T0, Tend, s)
+                return a_, b_, c_, d_, e_, b.trinterp(T0b.copy(), T1.copy(), s), b.trinterp(T0.copy(), np.block([[R0b, t1.reshape(3, 1)], [np.zeros((1, 3)), np.ones((1, 1))]]), s)
+            ok, r = L.noraise('trinterp(sequence of calls)', seq_, inp, 'several trinterp calls sharing the end array')
+            if ok and all(isinstance(x_, np.ndarray) for x_ in r):
+                L.close('trinterp(second start)', r[1], r[5], 1e-12, tsc, inp, what='trinterp(B, end, s) after trinterp(A, end, s) with the same end array differs from a fresh call', sig='trinterp:call-history')
+                L.close('SE3.interp(second start)', r[3], r[5], 1e-9, tsc, inp, what='X.interp(s, start=B) after X.interp(s, start=A) differs from a fresh call', sig='trinterp:call-history'); L.close('SE3.interp(first start)', r[2], r[0], 1e-9, tsc, inp, sig='trinterp:call-history')
+                L.close('trinterp(end edited in place)', r[4], r[6], 1e-12, tsc, inp, what='trinterp after the end array was edited in place differs from a fresh call on the new values', sig='trinterp:call-history')
         # start omitted = identity start
         ok, Ts = L.noraise('trinterp-nostart', lambda: b.trinterp(None, T1, s), inp, 'trinterp(None, T1, s)')
         if ok and isinstance(Ts, np.ndarray):
@@ -205,6 +218,18 @@ def _impl(tier, seed, search):
             ok, Us = L.noraise('SE2.interp', lambda: SE2(U1, check=False).interp(s, start=SE2(U0, check=False)).A, i2, 'SE2.interp')
             if ok and Us is None: L.check('SE2.interp', False, i2, 'SE2.interp returned an object holding None', sig='SE2.interp:none')
             elif ok: L.close('SE2.interp', Us[:2, :2], inputs.r2(a0 + s * da), TOL, 1.0, i2)
+            # poses written with integers (dtype int64): quarter turns and integer translations; the result is the real-valued interpolant
+            if i % 6 == 0:
+                qk = int(g.integers(-1, 3)); Ui = np.array([[round(math.cos(qk * math.pi / 2)), -round(math.sin(qk * math.pi / 2)), int(g.integers(-5, 6))], [round(math.sin(qk * math.pi / 2)), round(math.cos(qk * math.pi / 2)), int(g.integers(-5, 6))], [0, 0, 1]], dtype=np.int64)
+                aq = math.atan2(float(Ui[1, 0]), float(Ui[0, 0]))      # the angle the code reads off the matrix: -pi/2, 0, pi/2 or pi
+                for nm_, call_, want_ in (('trinterp2(None,int T,s)', lambda: b.trinterp2(None, Ui, s), (s * aq, s * Ui[:2, 2].astype(float))), ('trinterp2(T0,int T,s)', lambda: b.trinterp2(U0, Ui, s), None),
+                                          ('SE2(int T).interp(s)', lambda: SE2(Ui).interp(s).A, (s * aq, s * Ui[:2, 2].astype(float)))):
+                    ok, Un = L.noraise(nm_, call_, dict(T=Ui.tolist(), s=s), nm_)
+                    if ok and isinstance(Un, np.ndarray):
+                        if want_ is None: want_ = (a0 * (1 - s) + s * aq, t0[:2] * (1 - s) + s * Ui[:2, 2].astype(float))
+                        if True:
+                            L.close(f'{nm_}:angle', np.asarray(Un, float)[:2, :2], inputs.r2(want_[0]), TOL, 1.0, dict(T=Ui.tolist(), s=s), what='planar interpolation towards a pose stored with integer dtype is not the real-valued interpolant', sig='trinterp2:int-dtype')
+                        L.close(f'{nm_}:translation', np.asarray(Un, float)[:2, 2], want_[1], TOL, max(1.0, tsc), dict(T=Ui.tolist(), s=s), sig='trinterp2:int-dtype')
             ok, Us = L.noraise('trinterp2-R', lambda: b.trinterp2(inputs.r2(a0), inputs.r2(a1), s), i2, 'trinterp2 on SO(2)')
             if ok and isinstance(Us, np.ndarray): L.close('trinterp2-R', Us, inputs.r2(a0 + s * da), TOL, 1.0, i2)
             # start omitted = identity start: the angle is s * (end angle) for every end angle in (-pi, pi), translation s * t1
